@@ -837,6 +837,11 @@ def normalise(t):
                 new_if = ("if", x[2][1], x[2][2], normalise(("seq", ("let", x[1], x[2][3])) + rest))
                 head = list(items[:i])
                 return normalise(("seq",) + tuple(head) + (new_if,)) if head else normalise(new_if)
+            if _is(x, "let") and len(x) == 3 and _is(x[2], "if") and len(x[2]) == 4 and _always_returns(x[2][3]) and not _always_returns(x[2][2]):
+                rest = tuple(items[i + 1:])
+                new_if = ("if", x[2][1], normalise(("seq", ("let", x[1], x[2][2])) + rest), x[2][3])
+                head = list(items[:i])
+                return normalise(("seq",) + tuple(head) + (new_if,)) if head else normalise(new_if)
         # let x = y (y a local that is not used afterwards): x is y
         for i, x in enumerate(items):
             if _is(x, "let") and len(x) == 3 and _is(x[2], "var") and isinstance(x[2][1], str) and re.match(r"^[mv]\d+$", x[2][1]) and isinstance(x[1], str):
@@ -1063,6 +1068,21 @@ def normalise(t):
     if h in ("ctor",) and len(t) == 3 and _is(t[2], "if") and len(t[2]) == 4 and _is(t[2][2], "return"):
         # C(if c {return e} else {x})  ==  if c {return e} else {C(x)}
         return normalise(("if", t[2][1], t[2][2], ("ctor", t[1], t[2][3])))
+    if h == "try" and t[1] == ("None",):
+        return ("return", ("None",))
+    if h == "try" and _is(t[1], "return"):
+        return t[1]
+    if h == "try" and _is(t[1], "Some") and len(t[1]) == 2:
+        return t[1][1]
+    # W(if c {x} else {return r})  ==  if c {W(x)} else {return r}      (W: a wrapper with one operand)
+    if h in ("okopt", "Some", "try") and len(t) == 2 and _is(t[1], "if") and len(t[1]) == 4 and _is(t[1][3], "return"):
+        return normalise(("if", t[1][1], (h, t[1][2]), t[1][3]))
+    if h == "call" and len(t) == 3 and isinstance(t[1], str) and t[1] != "iter" and _is(t[2], "if") and len(t[2]) == 4 and _is(t[2][3], "return"):
+        return normalise(("if", t[2][1], ("call", t[1], t[2][2]), t[2][3]))
+    if h == "ctor" and len(t) == 3 and _is(t[2], "if") and len(t[2]) == 4 and _is(t[2][3], "return"):
+        return normalise(("if", t[2][1], ("ctor", t[1], t[2][2]), t[2][3]))
+    if h in ("okopt", "Some") and len(t) == 2 and _is(t[1], "seq") and len(t[1]) > 2:
+        return normalise(t[1][:-1] + ((h, t[1][-1]),))
     if h == "Ok" and len(t) == 2 and _is(t[1], "seq") and len(t[1]) > 2:
         return normalise(t[1][:-1] + (("Ok", t[1][-1]),))
     if h == "Ok" and len(t) == 2 and _is(t[1], "match") and len(t[1]) > 2:
